@@ -3,4 +3,5 @@ CONSTANT Universe = "quick"
 INVARIANT InvColumnOrder
 INVARIANT InvRowOrder
 INVARIANT InvIntended
+INVARIANT InvLoopRefines
 CHECK_DEADLOCK FALSE
